@@ -142,6 +142,11 @@ func par1Cycle(r *Run, hostile bool) {
 		r.Violate("create-failed", "PAR1 Create wrote %d files, expected index + %d volumes", len(w.Created), w.R)
 	}
 
+	if !hostile && t.Bool(1, 8, "foreign-writer") {
+		// the same set as another PAR1 client would have written it
+		w.RewriteAsForeignPar1(r)
+	}
+
 	if t.Bool(1, 3, "verify-clean") {
 		tr := w.TruthPar1()
 		v := r.Verify1(w, index, true, nil)
